@@ -119,6 +119,11 @@ class Oracle(simcheck.BaseOracle):
             if t.status.name == "COMPLETE" and any(not o.complete and o.status.name != "PENDING" for o in placed):
                 self.add("trade-complete-with-live-order", "trade %d is COMPLETE but order(s) %s are live" % (
                     t._vidx, [o._vidx for o in placed if not o.complete]))
+            if t.status.name == "COMPLETE" and t.orders and all(o.status_log and all(z.name == "VIOLATION" for z in o.status_log) for o in t.orders):
+                # none of its orders ever reached the exchange (refused by a control): nothing completed, the runner's cool-down
+                # after a completed trade must not start
+                self.add("trade-completed-by-a-refused-order", "trade %d is COMPLETE (log %s) although every order of it was refused before being sent" % (
+                    t._vidx, names))
             if len(placed) > 1:
                 self.multi = True
 
